@@ -283,7 +283,7 @@ def enum_cases(tier):
     for n in range(1, nmax + 1):
         for gi, shape in enumerate(dags.all_dags(n)):
             gl = dags.dag_spec(shape, "legacy", ["mixed", "str", "collide", "str", "dashed", "str"][gi % 6])
-            gt = dags.dag_spec(shape, "taskspec", "str" if gi % 2 else "tuple")
+            gt = dags.dag_spec(shape, "taskspec", ["tuple", "str", "collide", "str", "tuple", "dashed"][gi % 6])
             reqs = [list(c) for r in range(1, n + 1) for c in itertools.combinations(range(n), r)]
             for req in reqs:
                 for fn, grid in LEGACY_GRID.items():
